@@ -63,6 +63,10 @@ def generate(seed, tier):
         cfg["custom_plan"] = SC.gen_custom_plan(rw, N, cfg["fs"], max_bins=6 if sim else 30, Lcap=40 if sim else None)
     if sim:
         cfg["Jdes"] = min(cfg["Jdes"], 8)
+    elif rw.random() < 0.04:
+        N = rw.choice([1500, 3000])
+        data = SC.gen_data_spec(rw, N, channels)
+        SC.make_big_plan(rw, cfg)
     nops = rw.randrange(1, 5 if sim else 9)
     # an interfering analysis of the same record with another window shape / order (same lengths): process-wide state
     # that is keyed too coarsely (e.g. a window cache ignoring psll) is history dependence of the estimator
@@ -85,7 +89,8 @@ def generate(seed, tier):
             if rw.random() < 0.5:
                 ops.append(["single", ["grid", rw.randrange(64)], ["planL", rw.randrange(64)]])
             else:
-                ops.append(["single", ["free", round(rw.uniform(0, 0.5), 5)], rw.choice([["L", rw.randrange(1, Lmax + 1)], ["fres", rw.randrange(1, Lmax + 1)]])])
+                ops.append(["single", ["free", round(rw.uniform(0, 0.5), 5)], rw.choice([["L", rw.randrange(1, Lmax + 1)], ["fres", rw.randrange(1, Lmax + 1)],
+                                                                                         ["fres", round(rw.uniform(1.0, Lmax), 3)]])])
     return {"world": W.gen_world(rf, world, 6), "data": data, "cfg": cfg, "other": other, "ops": ops,
             "clock": CK.gen_clock(R.stream(seed, "clock"), p_none=0.5)}
 
@@ -121,7 +126,10 @@ def _check_against_reference(res, x, y, cfg, out, what, backend):
         got = (float(XX[j]), float(YY[j]), XY[j].real, XY[j].imag, float(M2[j]))
         if y is None:
             ref = (ref[0], ref[0], ref[0], 0.0, ref[4])
-        for nm, g, r, tol in zip(("XX", "YY", "XY_re", "XY_im", "M2"), got, ref, (t2, t2, t2, t2, t4)):
+        for nm, g, r, tol in zip(("XX", "YY", "XY_re", "XY_im", "M2"), got, ref, RM.ref_stats.last_tols):
+            ratio = abs(g - r) / tol if g == g else float("inf")
+            if ratio != float("inf") and ratio > out.extra.get("max_budget_ratio", 0.0):
+                out.extra["max_budget_ratio"] = float(ratio)
             if not abs(g - r) <= tol:
                 out.violate("bin_differs_from_reference_estimator", f"{what} backend={backend} field={nm}",
                             f"bin {j} of {nf} (f={f[j]:.6g}, L={L}, K={len(starts)}, win={cfg['win']}, order={cfg['order']}): got {g!r}, reference estimator on the reported plan gives {r!r} (budget {tol:.2e})")
